@@ -86,6 +86,29 @@ func mInverse(matrix ConstMatrix, inSitu *InSitu, args ...interface{}) (Matrix, 
 }
 
 func mInversePositiveDefinite(matrix ConstMatrix, inSitu *InSitu, args ...interface{}) (Matrix, error) {
+  // the Cholesky factor of a sub-matrix is not a sub-matrix of the
+  // Cholesky factor, hence decouple excluded rows and columns first
+  for _, arg := range args {
+    if s, ok := arg.(gaussJordan.Submatrix); ok && s.Value != nil {
+      n, _ := matrix.Dims()
+      if inSitu.A == nil {
+        inSitu.A = NullDenseMatrix(matrix.ElementType(), n, n)
+      }
+      inSitu.A.Set(matrix)
+      for i := 0; i < n; i++ {
+        for j := 0; j < n; j++ {
+          if !s.Value[i] || !s.Value[j] {
+            if i == j {
+              inSitu.A.At(i, j).SetFloat64(1.0)
+            } else {
+              inSitu.A.At(i, j).SetFloat64(0.0)
+            }
+          }
+        }
+      }
+      matrix = inSitu.A
+    }
+  }
   a, _, err := cholesky.Run(matrix, &inSitu.Cholesky)
   if err != nil {
     return nil, err
